@@ -57,6 +57,12 @@ def threadname_events(txt, tid=1, code='TRACE_STRING_THREADNAME'):
 
 
 def unrelated(kind, tid=1):
+    if kind == 'T':
+        # an unrelated record of the SAME pairing domain as the strings (kernel trace data), carrying non-text bytes
+        return E.ev('TRACE_DATA_NEWTHREAD', 0, (0x9500, 0x96, 0, 0), tid=tid)
+    if kind == 'D':
+        # a record whose name merely starts like the lookup records' name
+        return E.ev('VFS_LOOKUP_DONE', 0, tid=tid, data=B.le(0x77, 8) + b'/done'.ljust(24, b'\0'))
     if kind == 'K':
         return E.ev('MACH_vm_page_release', 0, (1, 2, 3, 4), tid=tid)
     if kind == 'U':
@@ -92,7 +98,7 @@ def judge_standalone(kind, L, pattern, gap=None):
     if kind == 'lookup':
         evs = with_gaps(lookup_events(0x4142434445464748, txt), gap)
         out, p = run(evs)
-        out = [t for t in out if type(t).__name__ not in ('BscGetpid', 'MachWait')]
+        out = [t for t in out if type(t).__name__ not in ('BscGetpid', 'MachWait', 'TraceDataNewthread')]
         lk = [t for t in out if type(t).__name__ == 'VfsLookup']
         if len(out) != 1 or len(lk) != 1:
             return [('continuation-record-produced-its-own-trace:lookup' if len(out) > 1 else 'lookup-trace-missing',
@@ -104,7 +110,7 @@ def judge_standalone(kind, L, pattern, gap=None):
     elif kind == 'gstring':
         evs = with_gaps(gstring_events(777, txt), gap)
         out, p = run(evs)
-        out = [t for t in out if type(t).__name__ not in ('BscGetpid', 'MachWait')]
+        out = [t for t in out if type(t).__name__ not in ('BscGetpid', 'MachWait', 'TraceDataNewthread')]
         gs = [t for t in out if type(t).__name__ == 'TraceStringGlobal']
         if len(out) != 1 or len(gs) != 1:
             return [('continuation-record-produced-its-own-trace:global-string' if len(out) > 1 else 'global-string-trace-missing',
@@ -118,7 +124,7 @@ def judge_standalone(kind, L, pattern, gap=None):
         code = 'TRACE_STRING_THREADNAME' if kind == 'threadname' else 'TRACE_STRING_THREADNAME_PREV'
         evs = with_gaps(threadname_events(txt, tid=5, code=code), gap)
         out, p = run(evs)
-        out = [t for t in out if type(t).__name__ not in ('BscGetpid', 'MachWait')]
+        out = [t for t in out if type(t).__name__ not in ('BscGetpid', 'MachWait', 'TraceDataNewthread')]
         if len(out) != 1:
             return [('thread-name-trace-count', {'n': len(out), 'n_records': len(evs)})]
         if out[0].name != txt:
@@ -177,7 +183,7 @@ class C08(Check):
     level = 'model_checking'
     rule = ('texts of every byte length 0..184 x 5 content patterns (ASCII; 2-byte and 3-byte UTF-8 characters placed to '
             'straddle record boundaries; all separators; blanks and dots) chunked kernel-style: (a) stand-alone VFS_LOOKUP, TRACE_STRING_GLOBAL (lengths '
-            '0..184) and THREADNAME / THREADNAME_PREV (0..63) record sequences, bare and with an unrelated same-thread record (undecoded, unknown, decodable NONE, a complete START/END pair) in every gap between the chunk records - exactly one trace with exactly the text (and '
+            '0..184) and THREADNAME / THREADNAME_PREV (0..63) record sequences, bare and with an unrelated same-thread record (undecoded, unknown, decodable NONE, a kernel trace-data record with non-text bytes, a VFS_LOOKUP_DONE record, a complete START/END pair) in every gap between the chunk records - exactly one trace with exactly the text (and '
             'vnode id / string id), tables hold exactly the announced text; (b) every path-taking BSD decoder (66 names, frozen '
             'slot table) x one lookup of every length x patterns; x k in {0,1,2,3,6} lookups of boundary lengths '
             '{0,1,23,24,25,55,56,57,184} x an unrelated same-thread record (undecoded, unknown, decodable NONE) in every gap. '
@@ -206,7 +212,7 @@ class C08(Check):
                 for pattern in range(NPAT):
                     first = {'lookup': 24, 'gstring': 16}.get(kind, 32)
                     nrec = 1 if L <= first else 1 + -(-(L - first) // 32)
-                    for gap in ((None,) if nrec < 2 else (None, 'K', 'U', 'W', 'pair')):
+                    for gap in ((None,) if nrec < 2 else (None, 'K', 'U', 'W', 'T', 'D', 'pair')):
                         try:
                             bad = judge_standalone(kind, L, pattern, gap)
                         except Exception as ex:
@@ -232,7 +238,7 @@ class C08(Check):
                         self._enc(acc, name, texts, {})
                         if li < 3:
                             for pos in range(k + 1):
-                                for kind in ('K', 'U', 'W'):
+                                for kind in ('K', 'U', 'W', 'T', 'D'):
                                     self._enc(acc, name, texts, {pos: kind})
 
     def _enc(self, acc, name, texts, gaps):
